@@ -32,6 +32,8 @@ type histParams struct {
 	User     userSpec
 	Alphabet string // c04 | c05
 	MaxDepth int
+	// UpstreamCookie: the upstream sets a cookie of its own on every response (most applications do)
+	UpstreamCookie bool
 }
 
 type histState struct {
@@ -160,6 +162,14 @@ func newHistRunner(p histParams) *histRunner {
 	e, err := harness.NewProxyEnv(o)
 	if err != nil {
 		panic(explore.HarnessError{Msg: "cannot build proxy: " + err.Error()})
+	}
+	if p.UpstreamCookie {
+		e.Backends["a"].Respond = func(w http.ResponseWriter, r *http.Request) {
+			w.Header().Add("Set-Cookie", "upstream_pref=dark; Path=/")
+			w.Header().Set("Content-Type", "text/plain")
+			w.WriteHeader(200)
+			fmt.Fprintf(w, "%s from a", harness.BackendMarker)
+		}
 	}
 	return &histRunner{p: p, env: e}
 }
